@@ -13,7 +13,7 @@ from . import common as C, chan
 sys.path.insert(0, os.path.join(C.VERIF, "extract"))
 
 MODULE = "AcqVerif.Props.C05"
-DRIVERS = ["acq_frames", "acq_chan", "acq_simcam", "acq_runtime", "AcqVerif.Channel.Refine"]
+DRIVERS = ["acq_frames", "acq_chan", "acq_simcam", "acq_runtime", "acq_hal", "AcqVerif.Channel.Refine"]
 THEOREMS = ["AcqVerif.C05.%s" % t for t in (
     "frame_size", "accumulator_size", "header_layout", "bytes_of_type_table", "regions_8_aligned", "regions_are_whole_writes")]
 
@@ -127,6 +127,22 @@ def run(ctx):
         mine = [p for p in problems if p[1] == "crash" or (p[1] == "oracle" and p[2]["msg"].split()[1] in ("frame-info-shape", "frame-bytes", "strides-do-not-match-dims"))]
         c17.report(ctx, exes[v], sdrv, v, cases, mine)
         keep["camera_header_shape_cases"] = {"cases": len(cases), "ops": cstats["ops"], "agree_with_camera_model": cstats["validated"]}
+    # (e) between the sink and the device: storage_append hands the driver the caller's packet — the same bytes, nothing beyond them —
+    # also when the driver takes only part of it (harness and model of C11; the mock driver consumes half of every packet and checks the
+    # region it is offered)
+    from . import c11
+    hexe, hdrv = c11.build(ctx)
+    if hexe:
+        scripts = [["sopen 0", "sset 1 3", "sstart 3", "sappend 2 3", "sappend 2 3", "sstop 2", "sclose 0"],
+                   ["sopen 0", "sset 1 3", "sappend 2 3", "sappend 1 3", "sappend 0 3", "sclose 0"],
+                   ["sopen 0", "sset 1 2", "sstart 3", "sappend 2 2", "sappend 2 3", "sclose 0"]]
+        hp = c11.run_batch(hexe, hdrv, scripts, c11.new_stats(), timeout=60)
+        for ci, kind, det in hp:
+            if kind in ("crash", "oracle"):
+                ctx.violation(kind, "h_hal:%s" % (str(det.get("msg", kind)).split()[1] if isinstance(det, dict) and len(str(det.get("msg", "")).split()) > 1 else kind),
+                              "real HAL storage_append: %s on `%s`" % (str(det)[:300], "; ".join(scripts[ci])),
+                              {"harness": "h_hal", "script": ["new"] + scripts[ci]})
+        keep["hal_append_packets"] = {"scripts": len(scripts), "problems": len([p for p in hp if p[1] in ("crash", "oracle")])}
     ctx.cov.clear(); ctx.cov.update(keep)
     ctx.cov["evaluations"] += n_sizes
     ctx.cov["size_cases"] = n_sizes
@@ -138,6 +154,9 @@ def run(ctx):
 def replay(ctx, path):
     import json
     rp = json.load(open(path)).get("replay", {})
+    if rp.get("harness") == "h_hal":
+        from . import c11
+        return c11.replay(ctx, path)
     if rp.get("harness") == "h_simcam_shape":
         from . import c17
         return c17.replay(ctx, path)
